@@ -15,14 +15,14 @@ const rule = "API descriptions (base path none, '/', plain, with trailing slash,
 // Props lists the generated checks of C01.
 func Props() []kit.Runner {
 	return []kit.Runner{
-		kit.Prop[Case]{ID: "C01", Name: "dispatch", Rule: rule + "; 1-6 templates, 8 requests per description", Quick: 1500, Thorough: 4000,
+		kit.Prop[Case]{ID: "C01", Name: "dispatch", Rule: rule + "; 1-6 templates, 8 requests per description", Quick: 1500, Thorough: 2500,
 			Gen: GenDispatch, Check: Check, Classify: Classify},
-		kit.Prop[Case]{ID: "C01", Name: "catalogue", Rule: rule + "; a fixed catalogue of 10 descriptions (built once per process), 16 requests per case", Quick: 20000, Thorough: 60000,
+		kit.Prop[Case]{ID: "C01", Name: "catalogue", Rule: rule + "; a fixed catalogue of 10 descriptions (built once per process), 16 requests per case", Quick: 20000, Thorough: 30000,
 			Gen: GenCatalogue, Check: Check, Classify: Classify},
 		kit.Prop[Case]{ID: "C01", Name: "composite", Rule: rule + "; positive-only subclass: templates with in-segment placeholders ('{x}.{y}', '{id}.json'), judged only on requests " +
-			"whose texts for such segments are non-empty and free of the segment's separators as sent and decoded", Quick: 1200, Thorough: 1500,
+			"whose texts for such segments are non-empty and free of the segment's separators as sent and decoded", Quick: 1200, Thorough: 800,
 			Gen: GenComposite, Check: Check, Classify: Classify},
-		kit.Prop[Case]{ID: "C01", Name: "large", Rule: rule + "; tables of 50-300 templates over a 36-literal vocabulary, 30 requests per table", Quick: 60, Thorough: 100,
+		kit.Prop[Case]{ID: "C01", Name: "large", Rule: rule + "; tables of 50-300 templates over a 36-literal vocabulary, 30 requests per table", Quick: 60, Thorough: 50,
 			Gen: GenLarge, Check: Check, Classify: Classify, SampleLimit: 600},
 	}
 }
